@@ -4,7 +4,7 @@ workloads + (where a model prediction exists) kernel-evaluated comparison with t
 import collections, json, os, re
 from . import common as C
 
-FAMILIES = {"C01": ["conc", "closures"], "C02": ["nest"], "C09": ["values"], "C10": ["errors"], "C11": ["closures"],
+FAMILIES = {"C01": ["conc", "closures"], "C02": ["nest", "closures"], "C09": ["values"], "C10": ["errors"], "C11": ["closures"],
             "C13": ["hub"], "C17": ["wire"]}
 
 
@@ -81,6 +81,8 @@ def mon_c02(rec):
     out = []
     if rec.get("hang"):
         out.append("deadlock / starvation: %s" % (rec.get("notes") or ["calls did not complete"]))
+    if rec["family"] == "closures":
+        return out + [v for v in mon_c11(rec) if "stalled" in v or "wedged" in v or "cancelled while" in v]
     for c in rec["calls"] or []:
         if c["m"] == "Nest":
             if c["err"] != "" or c["ret"] != c["arg"]:
@@ -172,6 +174,12 @@ def mon_c11(rec):
                 out.append("late invocation of a closure after its call returned: error %r, function ran=%s" % (c["err"], c.get("extra")))
         elif c.get("extra") == "probe" and (c["err"] != "" or c["ret"] != "42"):
             out.append("link not healthy after closure workload: probe returned (%s, %r)" % (c["ret"], c["err"]))
+        elif c["m"] == "IterProbe" and (c["err"] != "" or c["ret"] != "p/"):
+            out.append("a closure-carrying call after a rejected late invocation returned (%s, %r): closures are wedged" % (c["ret"], c["err"]))
+        elif c["m"] == "IterCancelled" and c["err"] != "context canceled":
+            out.append("a call cancelled while its closure was running returned (%s, %r) instead of promptly returning the context's error" % (c["ret"], c["err"]))
+        elif c["m"] == "IterWhileStalled" and (c["err"] != "" or c["ret"] != "q/;q/"):
+            out.append("an independent closure-carrying call issued while another closure was stalled returned (%s, %r)" % (c["ret"], c["err"]))
     return out
 
 
@@ -210,6 +218,23 @@ def mon_c13(rec):
                 out.append("hub call through remote %s (spoke %d) was handled by %s and returned (%s, %r)" % (c.get("extra"), i, [g["node"] for g in got], c["ret"], c["err"]))
         if c.get("extra") == "survivor" and (c["err"] != "" or c["ret"] != c["arg"]):
             out.append("after link %s failed a call on surviving link of %s returned (%s, %r)" % (victim, c["from"], c["ret"], c["err"]))
+        if c["m"] == "IterAcross":
+            i = c["tag"] - 780
+            if i != victim and (c["err"] != "" or c["ret"] != "h/"):
+                out.append("the closure-carrying call in flight on link %d was affected by the failure of link %s: returned (%s, %r)" % (i, victim, c["ret"], c["err"]))
+        if c["m"] == "DelayedAcross":
+            i = c["tag"] - 7100
+            if i != victim and (c["err"] != "" or c["ret"] != str(c["tag"] + 1)):
+                out.append("a closure the hub passed on link %d stopped working when link %s failed: the call returned (%s, %r)" % (i, victim, c["ret"], c["err"]))
+        if c["m"] == "WhoAmINew":
+            if c["err"] != "" or c["ret"] in (c.get("extra") or "").split(","):
+                out.append("a link established after another one failed got identity %r (error %r), already used by %s" % (c["ret"], c["err"], c.get("extra")))
+        if c["m"] == "EchoIntNew":
+            got = invs.get(798, [])
+            if c["err"] != "" or c["ret"] != "798" or [g["node"] for g in got] != ["SN"]:
+                out.append("a call through the newest remote was handled by %s and returned (%s, %r)" % ([g["node"] for g in got], c["ret"], c["err"]))
+        if c["m"] == "WhoAmIAgain" and (c["err"] != "" or c["ret"] != c.get("extra")):
+            out.append("the identity of surviving link of %s changed from %s to %s after a relink" % (c["from"], c.get("extra"), c["ret"]))
         if c["m"] == "Gate":
             i = c["tag"] - 740
             if i != victim and (c["err"] != "" or c["ret"] != str(c["tag"])):
@@ -273,7 +298,7 @@ def mon_c17(rec):
     byfn = collections.defaultdict(list)
     for d in reqs.values():
         byfn[d["function"]].append(d)
-    arity = {"Zero": 0, "EchoInt": 2, "Fail": 2, "FailVal": 3, "Multi": 8, "Iter": 3, "Sub.Deep.Ping": 1, "EchoPtr": 2, "CallClosure": 2}
+    arity = {"Delayed": 2, "Zero": 0, "EchoInt": 2, "Fail": 2, "FailVal": 3, "Multi": 8, "Iter": 3, "Sub.Deep.Ping": 1, "EchoPtr": 2, "CallClosure": 2}
     for fn, ds in byfn.items():
         if fn not in arity:
             out.append("request names function %r which no call used" % fn)
@@ -330,7 +355,7 @@ def transcript(rec):
 
 def check_c08(res, tier, seed, wd, binary):
     n = 2 if tier == "quick" else 12
-    recs, rc, out = C.run_job(binary, wd, "config", dict(family="config", seed=seed, n=n), timeout=1200)
+    recs, rc, out = C.run_job(binary, wd, "config", dict(family="config", seed=seed, n=n), timeout=(300 if tier == "quick" else 3000))
     hits = 0
     if rc != 0:
         hits += 1
@@ -378,7 +403,7 @@ def check(res, tier, seed):
         recs, hits, extra = check_c08(res, tier, seed, wd, binary)
     else:
         n = {"quick": 48, "thorough": 600}[tier]
-        recs, rc, out = C.run_job(binary, wd, "sys", dict(family="sys", seed=seed, n=n, cases=FAMILIES[pid], params=dict(percase=14)), timeout=1500)
+        recs, rc, out = C.run_job(binary, wd, "sys", dict(family="sys", seed=seed, n=n, cases=FAMILIES[pid], params=dict(percase=14)), timeout=(300 if tier == "quick" else 3000))
         if rc != 0:
             hits += 1
             res.violation("sys-crash", "the process died during the workload: %s" % (out.strip().splitlines() or ["?"])[-1][:300],
